@@ -373,11 +373,16 @@ def run(c, chk):
     nq = 0
     badq = None
     bad_extra = {}
+    n18 = 0
+    bad18 = None
+    chk.rule('R11.18', 'a qualifier picks an instance only of a multi section: every step that resolves through the number or the title of a qualifier has shown the section option to be CFGF_MULTI (a qualifier on a single section is not found)')
     for p in _loops.iterate(ex, stepf, hdr):
         if p.end == 'cut':
             continue
         # (a) strtol result used as the instance index only when the whole qualifier was consumed
-        st_ = [e for e in p.events if e.kind == 'call' and e.name == 'strtol']
+        # (the conversion is strtol() or a relative of it: what is required of its result - whole numeral, a digit, a bound
+        # established on the full-width value before it is narrowed - is the same for all of them)
+        st_ = [e for e in p.events if e.kind == 'call' and e.name in ('strtol', 'strtoll', 'strtoq', 'strtoimax', 'strtoul', 'strtoull', 'strtoumax')]
         for e in st_:
             used = [x for x in p.events if x.kind == 'call' and x.name == 'cfg_opt_getnsec' and sym.mentions(x.args[1], lambda v: v == e.res)]
             if not used:
@@ -415,6 +420,24 @@ def run(c, chk):
                 if narrowed and not bounded:
                     bad_extra.setdefault('index-narrowed', (p, 'the number of an index qualifier (a long) is handed to the accessor as unsigned int without an upper bound having been '
                                                                'established: multi=4294967296 resolves to instance 0 instead of "not found"'))
+        # (c) R11.18: "qualifier on a single section": an instance is picked by a qualifier (its number or its title) only after
+        # the section option was shown to be a multi section
+        for x in p.events:
+            if x.kind == 'call' and x.name == 'cfg_opt_getnsec' and len(x.args) > 1 and x.args[1] != sym.C0 and \
+                    sym.mentions(x.args[1], lambda v: v[0] == 'call' and v[1] in ('cfg_opt_gettsecidx', 'strtol', 'strtoll', 'strtoq', 'strtoimax', 'strtoul', 'strtoull', 'strtoumax')):
+                n18 += 1
+                want = sym.norm(('ld', ('fld', x.args[0], 'cfg_opt_t', 'flags')))
+                multi = False
+                for cn, t, _ in p.assume:
+                    d = pm.describe_cond(cn)
+                    if not sym.mentions(sym.norm(cn), lambda v: v == want):
+                        continue
+                    if d.endswith('has MULTI') and not d.startswith('not(') and t is True:
+                        multi = True
+                    if d.startswith('not(') and d.endswith('has MULTI)') and t is False:
+                        multi = True
+                if not multi:
+                    bad18 = bad18 or (p, x)
         # (b) the instance index of this step never comes from the previous step
         for x in p.events:
             if x.kind == 'call' and x.name == 'cfg_opt_getnsec' and sym.mentions(x.args[1], lambda v: v == ('p', 'i')):
@@ -430,6 +453,14 @@ def run(c, chk):
     for k_, (p_, msg_) in sorted(bad_extra.items()):
         chk.fail('R11.5', 'qualifier:' + k_, c.where(sec), 'cfg_getopt_secidx(): ' + msg_, witness=['path condition: ' + fp.cond_text(p_, 6)])
     chk.floor('R11.5 index-qualifier paths', nq, 1)
+    if bad18 is not None:
+        p_, x_ = bad18
+        chk.fail('R11.18', 'qualifier-on-single-section', c.where(x_.ins), 'cfg_getopt_secidx() picks a section instance by its qualifier (%s) on a path that has not shown the section option to be '
+                 'CFGF_MULTI: a qualifier on a single section (e.g. box=main on a titled section without CFGF_MULTI) resolves instead of being not found' % sym.render(x_.args[1]),
+                 witness=['path condition: ' + fp.cond_text(p_, 8)])
+    else:
+        chk.ok('R11.18', '%d steps resolved through a qualifier' % n18, 'each under an established CFGF_MULTI of the section option', sample=True)
+    chk.floor('R11.18 steps resolved through a qualifier', n18, 1)
 
     # ---- R11.4 ------------------------------------------------------------------------------
     idx = sec.params[2].name
